@@ -17,16 +17,19 @@ var verifBalTopicNames = [...]string{"t0", "t1", "t2"}
 var verifBalMemberNames = [...]string{"m0", "m1", "m2"}
 
 type verifBalIn struct {
-	nMembers  int
-	topics    map[string]int32 // topic => partition count (the balancer's input)
-	order     []string         // topics in map insertion order
-	subs      [][]string       // per member: subscribed topics (sorted)
-	claims    []map[string][]int32
-	gens      []int32
-	racks     []string // per member, "" = none
-	instance  []bool   // member joins with a static instance id
-	symGens   bool
-	fixedGens bool
+	nMembers    int
+	topics      map[string]int32 // topic => partition count (the balancer's input)
+	order       []string         // topics in map insertion order
+	subs        [][]string       // per member: subscribed topics (sorted)
+	claims      []map[string][]int32
+	gens        []int32
+	racks       []string // per member, "" = none
+	instance    []bool   // member joins with a static instance id
+	symGens     bool
+	fixedGens   bool
+	adopted     bool // generations were set by the harness (later rounds)
+	nextGen     int32
+	genOverride []int32 // fixed per-member generations for the first round
 }
 
 // verifBalPick is verifChoose that makes no choice when there is only one option (the
@@ -151,6 +154,12 @@ func (in *verifBalIn) verifBalOwnerClaims(conflicts bool) {
 }
 
 func (in *verifBalIn) verifBalGen(m int) int32 {
+	if in.adopted {
+		return in.nextGen
+	}
+	if in.genOverride != nil {
+		return in.genOverride[m]
+	}
 	if in.symGens {
 		return verifNondetInt32("gen" + verifBalMemberNames[m])
 	}
